@@ -234,7 +234,9 @@ fn segment_to_segment(min: f64, max: f64, order: usize) -> impl Fn(f64) -> u64 {
 
     let width = max - min;
     let n = (1_u64 << order) as f64;
-    let mut f = n / width;
+    // `n / width` overflows to infinity when `width` is tiny; `nextafter`
+    // cannot step down from infinity, so start from the largest finite factor.
+    let mut f = f64::min(n / width, f64::MAX);
 
     // Map max to (2**order-1) and avoid u64 overflow.
     while n <= width * f {
